@@ -192,6 +192,11 @@ func (x *Exec) unknownCall(fr *Frame, st *State, name string, sig *types.Signatu
 			rets = append(rets, x.freshValue(st, "ret_"+sanitize(name), sig.Results().At(i).Type()))
 		}
 	}
+	// results of abstracted calls are recorded next to their arguments (spec: lastret("name", i))
+	if st.calls == nil {
+		st.calls = map[string][]Value{}
+	}
+	st.calls[strings.TrimPrefix(name, "interface method ")+"#ret"] = rets
 	return []Outcome{{St: st, Kind: OutReturn, Rets: rets}}
 }
 
@@ -483,7 +488,7 @@ func (x *Exec) callContract(fr *Frame, st *State, fn *ssa.Function, fc *FuncCont
 	// caller's ghost call log are stale (everything, if the callee makes dynamic calls)
 	may := x.mayCall(fn)
 	for _, k := range sortedKeys(st.calls) {
-		if may == nil || may[k] {
+		if may == nil || may[k] || may[strings.TrimSuffix(k, "#ret")] {
 			delete(st.calls, k)
 		}
 	}
